@@ -96,3 +96,135 @@ package oras
 //@ func PackManifest
 //@   requires [wf] pusher != nil
 //@   ensures [C19:unsupported-version-no-push] packManifestVersion != 1 && packManifestVersion != 2 ==> errors.Is(result1, errdef.ErrUnsupported) && pushes(pusher) == old(pushes(pusher))
+//@
+//@ // ---------------------------------------------------------------- copy traversal (C01, C02, C04)
+//@ import io "io"
+//@ import context "context"
+//@ import registry "oras.land/oras-go/v2/registry"
+//@ import syncutil "oras.land/oras-go/v2/internal/syncutil"
+//@ import status "oras.land/oras-go/v2/internal/status"
+//@ import cas "oras.land/oras-go/v2/internal/cas"
+//@ import sync "sync"
+//@
+//@ pure hookHandled(d ocispec.Descriptor) bool
+//@ pure settled(dst any, d ocispec.Descriptor) bool = present(dst, K(d)) || hookHandled(d)
+//@
+//@ callback CopyHook params ctx, desc
+//@   ensures [hook-skip-means-handled] result == SkipNode ==> hookHandled(desc)
+//@   ensures forall o any, k descriptor.Descriptor :: old(present(o, k)) ==> present(o, k)
+//@   modifies ghost.present, ghost.pushes, ghost.lastPush, ghost.closedRC, ghost.readerOver, alloc
+//@ funcfield CopyGraphOptions.PreCopy CopyHook
+//@ funcfield CopyGraphOptions.PostCopy CopyHook
+//@ funcfield CopyGraphOptions.OnCopySkipped CopyHook
+//@ funcfield CopyGraphOptions.OnMounted CopyHook
+//@ callback FindSuccessorsHook
+//@   ensures forall o any, k descriptor.Descriptor :: old(present(o, k)) ==> present(o, k)
+//@   modifies ghost.present, ghost.closedRC, ghost.readerOver, alloc, new elems[ocispec.Descriptor], new elems[byte]
+//@ funcfield CopyGraphOptions.FindSuccessors FindSuccessorsHook
+//@ callback MountFromHook
+//@   ensures forall o any, k descriptor.Descriptor :: old(present(o, k)) ==> present(o, k)
+//@   modifies ghost.present, alloc, new elems[string]
+//@ funcfield CopyGraphOptions.MountFrom MountFromHook
+//@
+//@ iface content.Fetcher.Fetch params ctx, target
+//@   ensures result1 == nil ==> result0 != nil
+//@   ensures forall o any, k descriptor.Descriptor :: old(present(o, k)) ==> present(o, k)
+//@   modifies ghost.present, ghost.closedRC, ghost.readerOver, alloc
+//@
+//@ func newCopyError
+//@   ensures [wraps] result != nil && !isGlobalErr(result) && (forall t error :: errors.Is(result, t) == (result == t || errors.Is(err, t)))
+//@   modifies alloc
+//@
+//@ ghost local dcFetchErr error
+//@ ghost local dcPushErr error
+//@ ghost local dcFetches int
+//@ ghost local dcPushes int
+//@ func doCopyNode
+//@   requires [wf] src != nil && dst != nil
+//@   entry set dcFetches = 0
+//@   entry set dcPushes = 0
+//@   entry set dcFetchErr = nil
+//@   entry set dcPushErr = nil
+//@   call .Fetch set dcFetches = dcFetches + 1
+//@   call .Fetch set dcFetchErr = result1
+//@   call .Push set dcPushes = dcPushes + 1
+//@   call .Push set dcPushErr = result
+//@   call .Push requires [C01:pushes-the-fetched-node] args.expected == desc && args.content == rc && dcFetchErr == nil
+//@   ensures [C01:nil-means-present] result == nil ==> present(dst, K(desc))
+//@   ensures [C02:fetch-error-surfaces] dcFetchErr != nil ==> result != nil
+//@   ensures [C02:push-error-surfaces] dcPushErr != nil && !errors.Is(dcPushErr, errdef.ErrAlreadyExists) ==> result != nil
+//@   ensures [C04:one-fetch-one-push] dcFetches <= 1 && dcPushes <= 1
+//@   ensures [monotone] forall o any, k descriptor.Descriptor :: old(present(o, k)) ==> present(o, k)
+//@   modifies ghost.present, ghost.pushes, ghost.lastPush, ghost.closedRC, ghost.readerOver, alloc, elems[any]
+//@
+//@ ghost local cnPre int
+//@ ghost local cnPost int
+//@ ghost local cnPreErr error
+//@ ghost local cnPostErr error
+//@ ghost local cnCopied bool
+//@ func copyNode
+//@   requires [wf] src != nil && dst != nil
+//@   entry set cnPre = 0
+//@   entry set cnPost = 0
+//@   entry set cnPreErr = nil
+//@   entry set cnPostErr = nil
+//@   entry set cnCopied = false
+//@   call opts.PreCopy set cnPre = cnPre + 1
+//@   call opts.PreCopy set cnPreErr = result
+//@   call opts.PreCopy requires [C04:precopy-before-copy] !cnCopied && cnPre == 0
+//@   call doCopyNode set cnCopied = result == nil
+//@   call opts.PostCopy set cnPost = cnPost + 1
+//@   call opts.PostCopy set cnPostErr = result
+//@   call opts.PostCopy requires [C04:postcopy-only-after-successful-copy] cnCopied && cnPost == 0
+//@   ensures [C01:nil-means-settled] result == nil ==> settled(dst, desc)
+//@   ensures [C04:skipnode-skips-postcopy] cnPreErr == SkipNode ==> result == nil && cnPost == 0 && !cnCopied
+//@   ensures [C04:callback-error-identity] cnPreErr != nil && cnPreErr != SkipNode ==> result == cnPreErr
+//@   ensures [C04:callback-error-identity] cnPostErr != nil ==> result == cnPostErr
+//@   ensures [C04:success-calls-hooks-once] result == nil && cnPreErr != SkipNode ==> cnCopied && cnPre == (opts.PreCopy != nil ? 1 : 0) && cnPost == (opts.PostCopy != nil ? 1 : 0)
+//@   ensures [monotone] forall o any, k descriptor.Descriptor :: old(present(o, k)) ==> present(o, k)
+//@   modifies ghost.present, ghost.pushes, ghost.lastPush, ghost.closedRC, ghost.readerOver, alloc, elems[any]
+//@
+//@ func mountOrCopyNode
+//@   trusted
+//@   ensures [nil-means-settled] result == nil ==> settled(dst, desc)
+//@   ensures forall o any, k descriptor.Descriptor :: old(present(o, k)) ==> present(o, k)
+//@   modifies ghost.present, ghost.pushes, ghost.lastPush, ghost.closedRC, ghost.readerOver, alloc, elems[any], elems[string]
+//@
+//@ func syncutil.Go
+//@   trusted
+//@   ensures forall o any, k descriptor.Descriptor :: old(present(o, k)) ==> present(o, k)
+//@   ensures forall m *sync.Map, k any :: old(syncHas(m, k)) ==> syncHas(m, k) && syncVal(m, k) == old(syncVal(m, k))
+//@   ensures forall t *status.Tracker :: old(trackerRI(t)) ==> trackerRI(t)
+//@   modifies ghost.present, ghost.pushes, ghost.lastPush, ghost.closedRC, ghost.readerOver, ghost.syncHas, ghost.syncVal, ghost.syncVersion, ghost.acquired, alloc, elems[any], elems[string], elems[byte], elems[ocispec.Descriptor]
+//@
+//@ ghost local cgCopies int
+//@ ghost local cgFailed bool
+//@ func copyGraph$1
+//@   serves C01, C02, C04
+//@   requires [wf] ctx != nil && tracker != nil && trackerRI(tracker) && dst != nil && src != nil && proxy != nil && proxy.Cache != nil && opts.FindSuccessors != nil && (region == nil || (!region.ended && region.limiter != nil))
+//@   let st = lockOf(tracker, "status")
+//@   entry set cgCopies = 0
+//@   entry set cgFailed = false
+//@   loop 0 invariant [C01,C02:waited-prefix] forall k int :: 0 <= k && k < $i ==> tracked(tracker, successors[k]) && recvd(doneChan(tracker, successors[k]))
+//@   loop 0 invariant [kept] tracker == old(tracker) && trackerRI(tracker) && dst == old(dst) && proxy == old(proxy) && proxy.Cache == old(proxy.Cache) && src == old(src) && (region == nil || (region.ended && region.limiter != nil)) && err == nil && !recvd(ctxDone(ctx)) && done == doneChan(tracker, desc) && tracked(tracker, desc) && cgCopies == 0 && !cgFailed && len(successors) > 0
+//@   call copyNode|mountOrCopyNode requires [C01,C02:wait-before-push] forall k int :: 0 <= k && k < len(successors) ==> tracked(tracker, successors[k]) && recvd(doneChan(tracker, successors[k]))
+//@   call copyNode|mountOrCopyNode requires [C04:holds-permit] region == nil || !region.ended
+//@   call copyNode|mountOrCopyNode set cgCopies = cgCopies + 1
+//@   call copyNode|mountOrCopyNode set cgFailed = cgFailed || result != nil
+//@   call copyNode requires [C01:cached-node-copied-from-cache] args.src == proxy.Cache
+//@   call dst.Exists requires [C04:holds-permit] region == nil || !region.ended
+//@   call dst.Exists set cgFailed = cgFailed || result1 != nil
+//@   call opts.FindSuccessors requires [C04:holds-permit] region == nil || !region.ended
+//@   call opts.FindSuccessors set cgFailed = cgFailed || result1 != nil
+//@   call opts.OnCopySkipped set cgFailed = cgFailed || result != nil
+//@   call proxy.Cache.Exists requires [C04:holds-permit] region == nil || !region.ended
+//@   call proxy.Cache.Exists set cgFailed = cgFailed || result1 != nil
+//@   call Go requires [C02,C04:permit-released-before-dispatch] region == nil || region.ended
+//@   call Go requires [C01:dispatch-all-successors] args.items == successors
+//@   call Go set cgFailed = cgFailed || result != nil
+//@   call Start set cgFailed = cgFailed || result != nil
+//@   call close requires [C01,C02:close-only-on-success] err == nil && settled(dst, desc) && args.arg0 == doneChan(tracker, desc)
+//@   ensures [C02:error-surfaces] cgFailed ==> err != nil
+//@   ensures [C02:cancel-surfaces] recvd(ctxDone(ctx)) ==> err != nil
+//@   ensures [C04:at-most-one-copy] cgCopies <= 1
+//@   ensures [C04:permit-held-on-success] err == nil ==> region == nil || !region.ended
